@@ -56,6 +56,29 @@ func (u *unitCtx) params(n int, exts []int, typeParam string) (string, []varInfo
 		vars = append(vars, vi)
 	}
 	sep := rapid.SampledFrom([]string{", ", ",", " , "}).Draw(t, "paramSep")
+	if g.o.LongLines && rapid.IntRange(0, 24).Draw(t, "wideParams") == 24 {
+		// the all-arguments constructor / bulk setter of a generated data class: 20..120 further parameters
+		// (a method takes at most 255 argument slots, a long two of them) on the same line, their types
+		// cycling through a few drawn ones, their names numbered
+		more := rapid.IntRange(20, 120).Draw(t, "nWideParams")
+		var types []string
+		for k, nt := 0, rapid.IntRange(1, 4).Draw(t, "nWideTypes"); k < nt; k++ {
+			typ, usedNames := g.plainType(exts, typeParam)
+			for _, un := range usedNames {
+				u.used[un] = true
+			}
+			types = append(types, typ)
+		}
+		prefix := rapid.SampledFrom([]string{"f", "arg", "col", "p", "customerAddressLine", "previousBillingPeriodAmount"}).Draw(t, "wideParamPrefix")
+		fin := rapid.SampledFrom([]string{"", "", "final "}).Draw(t, "wideParamFinal")
+		for k := 0; k < more; k++ {
+			vi := varInfo{name: g.names.numbered(prefix), kind: "param", typ: types[k%len(types)], cls: -1}
+			parts = append(parts, fin+vi.typ+" "+vi.name)
+			vi.typ = nb(vi.typ)
+			vars = append(vars, vi)
+		}
+		u.feature("wide_parameter_list")
+	}
 	return strings.Join(parts, sep), vars
 }
 
@@ -246,7 +269,7 @@ func (u *unitCtx) blockWithReturn(level int, ret string) {
 			u.simpleStmt(level)
 		}
 		if rapid.IntRange(0, 9).Draw(t, "trailingComment") == 0 {
-			w.S(" // " + u.g.comment("trail"))
+			w.S(" " + w.LineComment(u.g.comment("trail")))
 		}
 		w.S("\n")
 	}
@@ -882,6 +905,10 @@ func (u *unitCtx) callExpr(level, depth int) {
 		u.event(Event{Kind: "call", Name: m.name, Line: line, Col: col, Recv: "super", Target: sup.full() + "." + m.name})
 		u.feature("super_call_of_declared_method")
 		u.args(level, depth, true)
+		return
+	}
+	if u.g.o.UnqualifiedForeign && len(u.foreign) > 0 && rapid.IntRange(0, 4).Draw(t, "foreignCall") == 4 {
+		u.foreignCall(level, depth)
 		return
 	}
 	if u.g.o.Wide && rapid.IntRange(0, 7).Draw(t, "wideCall") == 0 {
